@@ -31,7 +31,8 @@ RULE = ("one run = one generated FSM class (1-4 states, 1-3 events; specific / '
         "some states) and a history of 1-8 events (table events with data, unknown events, Goto "
         "from another block, condition flags toggled in between); run indices below 4000 are "
         "restricted to <=2 states x <=2 events so the small space is covered densely; "
-        "non-trivial = at least one accepted transition after initialisation; distinct = hash of "
+        "three in eight machines are persistent blocks of a circuit with storage (sync_state "
+        "on/off); non-trivial = at least one accepted transition after initialisation; distinct = hash of "
         "(class shape, per event: kind, accepted/rejected/error, action log shape)")
 REACH_EXPECTED = ['chained', 'any_state_rule_used', 'specific_beats_any', 'forbidden_rule',
                   'cond_false', 'notrans', 'goto_from_block', 'unknown_event', 'multi_chain_error',
